@@ -628,20 +628,20 @@ variable {α : Type} [Add α] [Sub α] [Mul α] [LinearOrder α] [OfNat α 0]
 and a placeholder priority `big` (1e300) above every candidate cost: it succeeds, the score is the table value of
 `_dtw` at the last pair, `S` is a monotone unit-step coupling from the last pair to `(0,0)` whose accumulated cost is
 the score, and `_fillAF_dtw` turns `S` into the `pair` lists -/
-theorem fdtw_spec (sqrt : α → α) (big : α) (w : α → α → α) (dim : Nat) (t1 t2 : List (Pt α))
+theorem fdtw_spec (dist : Pt α → Pt α → α) (big : α) (w : α → α → α) (t1 t2 : List (Pt α))
     (h1 : 0 < t1.length) (h2 : 0 < t2.length)
     (hw : ∀ a b d, a ≤ b → w a d ≤ w b d)
-    (hinf : ∀ a i j, i < t2.length → j < t1.length → a ≤ w a (Dmat sqrt dim t1 t2 i j))
+    (hinf : ∀ a i j, i < t2.length → j < t1.length → a ≤ w a (Dmat dist t1 t2 i j))
     (hbig : ∀ i j i' j', i < t2.length → j < t1.length → i' < t2.length → j' < t1.length →
-      w (T w 0 (Dmat sqrt dim t1 t2) i j) (Dmat sqrt dim t1 t2 i' j') < big) :
-    ∃ S rows, fdtw sqrt big w dim t1 t2 = some
-        { score := T w 0 (Dmat sqrt dim t1 t2) (t2.length - 1) (t1.length - 1), S := S, rows := rows,
+      w (T w 0 (Dmat dist t1 t2) i j) (Dmat dist t1 t2 i' j') < big) :
+    ∃ S rows, fdtw dist big w t1 t2 = some
+        { score := T w 0 (Dmat dist t1 t2) (t2.length - 1) (t1.length - 1), S := S, rows := rows,
           nbLinks := S.length } ∧
       BackPath S ∧ S.head? = some (t2.length - 1, t1.length - 1) ∧
-      costBack w 0 (Dmat sqrt dim t1 t2) S = T w 0 (Dmat sqrt dim t1 t2) (t2.length - 1) (t1.length - 1) ∧
+      costBack w 0 (Dmat dist t1 t2) S = T w 0 (Dmat dist t1 t2) (t2.length - 1) (t1.length - 1) ∧
       rows.length = t1.length ∧
       ∀ j, j < t1.length → (rows[j]?).map (·.pair) = some (partners S.reverse j) := by
-  let D := Dmat sqrt dim t1 t2
+  let D := Dmat dist t1 t2
   let n1 := t1.length
   let n2 := t2.length
   have hD : ∀ i j, i < n2 → j < n1 → cellAt (dcols D n1 n2) i j = some (D i j) := cellAt_dcols D n1 n2
@@ -678,7 +678,7 @@ theorem fdtw_spec (sqrt : α → α) (big : α) (w : α → α → α) (dim : Na
   obtain ⟨st', hrun, hlast, R, hinv⟩ := hloop
   obtain ⟨bp, hd, hcost⟩ := walkA_spec hinv (n1 + n2) (n2 - 1, n1 - 1) hlast (by simp only; omega)
   have hb := backPath_bounds _ _ _ bp hd
-  obtain ⟨rows, he, hl, hp⟩ := fillAF_spec sqrt dim t1 t2
+  obtain ⟨rows, he, hl, hp⟩ := fillAF_spec dist t1 t2
     (walk (fun i j => st'.A.get? (i, j)) (n1 + n2) (n2 - 1, n1 - 1)) (T w 0 D (n2 - 1) (n1 - 1))
     (fun s hs => by have := hb s hs; omega)
   refine ⟨_, rows, ?_, bp, hd, hcost, hl, hp⟩
